@@ -186,7 +186,7 @@ def gen_create(rng, grids, empty_ok=False):
             tests[name] = {"threshold": ex()}
         else:
             tests[name] = {k: ex() for k in ("suspect_threshold", "fail_threshold", "tolerance")}
-    op = {"op": "create", "grid": gi, "bbox": bbox, "start": [year, start_m, start_d], "days": length, "tests": tests}
+    op = {"op": "create", "grid": gi, "bbox": bbox, "start": [year, start_m, start_d], "days": length, "tests": tests, "via": rng.pick(("dict", "dict", "str_path", "Path"))}
     if empty_ok and bbox[2] < grids[gi]["lon"][0]:
         op["unchecked"] = True
     return op
@@ -278,6 +278,19 @@ def model_stats(grid, bbox):
                 cells.append(grid["field"][i][j])
     arr = np.array(cells, dtype="float64")
     return {"min": float(arr.min()), "max": float(arr.max()), "mean": float(arr.mean()), "std": float(arr.std())}
+
+
+def via_file(doc, via, stem):
+    """The config as a dict, or written to a JSON file and given as str / Path (both documented)."""
+    if via == "dict":
+        return doc
+    import json
+    from pathlib import Path
+
+    path = os.path.join(seams.scratch_dir(), f"{stem}.json")
+    with open(path, "w") as f:
+        json.dump(doc, f)
+    return path if via == "str_path" else Path(path)
 
 
 def has_valid_cell(grid, bbox):
@@ -387,7 +400,7 @@ def execute(scn):
                     if grid.get("levels"):
                         dsd["3d"] = "depth"
                         bump("climatology_3d")
-                    creators[op["grid"]] = QcConfigCreator(CreatorConfig({"datasets": [dsd]}))
+                    creators[op["grid"]] = QcConfigCreator(CreatorConfig(via_file({"datasets": [dsd]}, op.get("via", "dict"), f"creator{op['grid']}")))
                 qc = creators[op["grid"]]
                 y, m, d = op["start"]
                 start = datetime.date(y, m, d)
@@ -397,7 +410,7 @@ def execute(scn):
                     vc = vcs[op["vc_from"]]
                     bump("variable_config_reused")
                 else:
-                    vc = QcVariableConfig({"variable": "temperature", "bbox": list(op["bbox"]), "start_time": start.isoformat(), "end_time": end.isoformat(), "tests": tests})
+                    vc = QcVariableConfig(via_file({"variable": "temperature", "bbox": list(op["bbox"]), "start_time": start.isoformat(), "end_time": end.isoformat(), "tests": tests}, op.get("via", "dict"), f"var{i}"))
                 vcs[op.get("uid", i)] = vc
                 out = qc.create_config(vc)["temperature"]["qartod"]
             except ZeroDivisionError:
